@@ -165,6 +165,56 @@ theorem read_touches_nothing {σ : Type} (cfg : Cfg) (method : String) (path qjw
   dsimp only
   split <;> simp [h]
 
+/-! ## T1: the claim comparison is an EQUALITY on the fid after the `_n` suffix is stripped -/
+
+/-- once the token passed the key/format/signature/time checks, the verdict is decided by one EQUALITY between the fid
+    claim and `vid,fid` with the sub-file suffix removed — not a prefix, not a containment test -/
+theorem claim_comparison_is_equality (cfg : Cfg) (method : String) (vid fid : List Char) (t : Tok)
+    (hk : keyFor cfg method ≠ []) (hs : t.str ≠ []) (hw : t.wellFormed = true) (ha : isHmac t.alg = true)
+    (hsig : t.sigOk = true) (hkey : t.signKey = keyFor cfg method) (he : t.expOk = true) (hn : t.nbfOk = true) (hi : t.iatOk = true) :
+    authorized (check cfg method vid fid t.str t) = true ↔ t.fid = vid ++ ',' :: stripDelta fid := by
+  rw [authorized_iff]
+  constructor
+  · rintro (h | h)
+    · exact absurd h hk
+    · exact h.2.2.2.2.2.2.2.2.2
+  · intro h; exact Or.inr ⟨hs, rfl, hw, ha, hsig, hkey, he, hn, hi, h⟩
+
+/-- … so a claim that is only a PREFIX of the target is rejected, however the target is addressed: any valid token
+    whose fid claim differs from `vid,stripDelta fid` gives 401 -/
+theorem other_claim_rejected (cfg : Cfg) (method : String) (vid fid s : List Char) (t : Tok)
+    (hk : keyFor cfg method ≠ []) (hne : t.fid ≠ vid ++ ',' :: stripDelta fid) :
+    authorized (check cfg method vid fid s t) = false := by
+  cases h : authorized (check cfg method vid fid s t) with
+  | false => rfl
+  | true =>
+    rcases (authorized_iff cfg method vid fid s t).mp h with h1 | h1
+    · exact absurd h1 hk
+    · exact absurd h1.2.2.2.2.2.2.2.2.2 hne
+
+/-- witness (the sub-file form `B_n` with a claim that is a strict textual prefix of B, and the empty claim):
+    needle 0x163 cookie 7037d6ab addressed as `01637037d6ab_0`, token for `1,01637037d6` (needle 0x01 cookie 637037d6) -/
+theorem prefix_claim_witness :
+    let t : Tok := ⟨"tok".toList, true, "HS256", "k".toList, true, true, true, true, "1,01637037d6".toList⟩
+    check ⟨"k".toList, []⟩ "DELETE" "1".toList "01637037d6ab_0".toList "tok".toList t = .fidMismatch ∧
+    check ⟨"k".toList, []⟩ "DELETE" "1".toList "01637037d6ab_0".toList "tok".toList { t with fid := [] } = .fidMismatch ∧
+    check ⟨"k".toList, []⟩ "DELETE" "1".toList "01637037d6_0".toList "tok".toList t = .ok := by decide
+
+example : ∃ (cfg : Cfg) (method : String) (vid fid : List Char) (t : Tok), keyFor cfg method ≠ [] ∧ t.fid ≠ vid ++ ',' :: stripDelta fid ∧ t.str ≠ [] :=
+  ⟨⟨"k".toList, []⟩, "DELETE", "1".toList, "01637037d6ab_0".toList,
+    ⟨"tok".toList, true, "HS256", "k".toList, true, true, true, true, "1,01637037d6".toList⟩, by decide, by decide, by decide⟩
+
+/-- bridge: the source text of the comparison in `maybeCheckJwtAuthorization` (regenerated on every check) is `==` between the
+    claim and `vid+","+fid`, after `fid = fid[:sepIndex]` for `sepIndex := strings.LastIndex(fid, "_")`, `sepIndex > 0` —
+    what `check`'s last step and `stripDelta` model; replacing the equality by a prefix/contains test breaks this obligation -/
+theorem bridge_claim_comparison :
+    SwV.Gen.C34.claim_cmp = "sc.Fid == vid+\",\"+fid" ∧
+    SwV.Gen.C34.delta_sep = "sepIndex := strings.LastIndex(fid, \"_\")" ∧
+    SwV.Gen.C34.delta_cond = "sepIndex > 0" ∧
+    SwV.Gen.C34.delta_strip = "fid = fid[:sepIndex]" ∧
+    (∀ fid : List Char, stripDelta fid = (cutLastPositive '_' fid).1) := by
+  refine ⟨by decide, by decide, by decide, by decide, fun _ => rfl⟩
+
 /-! ## bridges: the modelled functions are pinned to the source text they were read from (regenerated on every check) -/
 
 /-- an edit of any of these functions (e.g. moving the check after the Store access) breaks this obligation -/
